@@ -1,7 +1,8 @@
 """Shared machinery of bin/check: TLC runs, harness builds, known findings, evidence, verdicts."""
 import json, os, re, subprocess, sys, time, hashlib, shutil
 
-ROOT = "/verif"
+ROOT = os.path.dirname(os.path.dirname(os.path.abspath(__file__)))
+REPO = os.environ.get("VERIF_REPO", "/repo")
 WORK = os.path.join(ROOT, "work")
 SPEC = os.path.join(ROOT, "spec")
 HARNESS = os.path.join(ROOT, "harness")
